@@ -15,12 +15,20 @@ with the raw word to 16 bits.
 
 LEVEL: the lemmas are proved for the *specified* sampler; the code is tied to it by trace validation on sampled and
 crafted draws only, so the level claimed for the property as a whole is "exploration".
+
+Mutation evidence (tools/mutbuild.sh lib, quick tier):
+  caught  rejection test `value > limit` (accepts value == limit)      -> crafted draw with raw == limit rejected by Random_trace
+  caught  `limit = max()` (no rejection of the biased tail)            -> draws whose raw word lies in [limit, 2^32-1]
+  caught  uniform_real does not redraw when numerator == divisor       -> crafted draw with raw == 2^32-1
 """
 import json, os
 import vlib
 import lib_common as L
 
 LEVEL = "exploration"
+META = {"text": "The rejection sampler of XbtRandom::uniform_int is transcribed in spec/lib/Random.tla; RandomProof.tla states that the limit is a positive multiple of the range, that accepted raw values are in bijection with (residue, quotient) pairs (every value has the same number of preimages) and that the result lies in [min, max]; Apalache proves the three lemmas for every 32-bit range (and must refute a false predicate), TLC re-checks them by counting for word sizes 4..8 (4..11 thorough). The code is bound to the specification by trace validation: every logged draw (seeded XbtRandom objects, the global generator, and crafted engine states sitting on the rejection boundary) is recomputed by TLC from the raw std::mt19937 words it consumed, for all range widths (16-bit halves arithmetic, itself checked against plain arithmetic on small words); uniform_real is checked in [min, max], redraw rule and 16-bit agreement with the raw word. Level exploration for the property as a whole: the proof covers the specified sampler, the binding to the code is by sampled and crafted draws.",
+        "note": "Trusted: Apalache 0.58 + Z3, TLC, std::mt19937 and its libstdc++ textual state format (used to craft states), the transcription of uniform_int. Unbiasedness is a property of the specified rule given uniform raw words; it is not measured statistically on the code. exponential/normal are not covered.",
+        "technique": "Apalache proof of integer lemmas + TLC brute force + TLC trace validation of logged draws (T)"}
 DRIVERS = {"c45drv": L.DRIVERS["c45drv"]}
 M = 2 ** 32 - 1
 IMIN, IMAX = -2 ** 31, 2 ** 31 - 1
